@@ -81,6 +81,7 @@ fn open(p: &P6) -> Result<Conn, Fail> {
         Entry::Lib => Ok(Conn::Drv(Driver::new(p.backend, Via::Lib, &cfg).map_err(sv)?)),
         Entry::Http => {
             let mut d = Driver::new(p.backend, Via::Http, &cfg).map_err(sv)?;
+            d.content_length = p.enc == Encoding::ContentLength;
             let sizes = p.sizes.clone();
             d.chunker = Some(Box::new(move |data: &[u8]| cut(&Bytes::copy_from_slice(data), &sizes)));
             Ok(Conn::Drv(d))
